@@ -313,6 +313,29 @@ func (st *flowState) load(addr ssa.Value, path string, a, b int64, aff bool, key
 		st.walk(x.X, "[]"+path, a, b, aff, append([]ssa.Value{x.Index}, keys...), depth+1)
 	case *ssa.Global:
 		st.emit("global", x, x.Name(), path, a, b, aff, keys)
+	case *ssa.FreeVar:
+		// captured variable: the cell is bound by the enclosing function's MakeClosure
+		fn := x.Parent()
+		idx := -1
+		for i, fv := range fn.FreeVars {
+			if fv == x {
+				idx = i
+			}
+		}
+		resolved := false
+		if par := fn.Parent(); par != nil && idx >= 0 {
+			for _, blk := range par.Blocks {
+				for _, ins := range blk.Instrs {
+					if mc, ok := ins.(*ssa.MakeClosure); ok && mc.Fn == fn && idx < len(mc.Bindings) {
+						st.load(mc.Bindings[idx], path, a, b, aff, keys, depth+1)
+						resolved = true
+					}
+				}
+			}
+		}
+		if !resolved {
+			st.emit("freevar", x, x.Name(), path, a, b, aff, keys)
+		}
 	default:
 		st.walk(addr, "*"+path, a, b, aff, keys, depth+1)
 	}
